@@ -250,6 +250,12 @@ pub fn context(tier: Tier, seed: u64) -> Result<Ctx, String> {
     Ok(Ctx { pools, runs, per_run })
 }
 
+pub fn runner(tier: Tier, seed: u64) -> Option<(u64, Box<dyn Fn(u64) -> RunOutcome + Sync>)> {
+    let ctx = context(tier, seed).ok()?;
+    let n = ctx.runs;
+    Some((n, Box::new(move |run| one_run(seed, run, &ctx.pools, ctx.per_run))))
+}
+
 pub fn rerun(tier: Tier, seed: u64, run: u64) -> Option<RunOutcome> {
     let ctx = context(tier, seed).ok()?;
     Some(one_run(seed, run, &ctx.pools, ctx.per_run))
